@@ -126,6 +126,10 @@ Universe_C05 ==
      n \in {1, 2}, bp \in UNION {{Const(m, "fixed"), [i \in 1..m |-> IF i = 1 THEN "bad" ELSE "wide"]} : m \in {1, 2}},
      sc \in BOOLEAN, obj \in {"quad", "none"}, lin \in {"none", "ub"}, nl \in {"none", "nlc_ub"},
      opt \in {"default", "fev1", "hist1"}, cb \in {NoCb, <<"kw", 0>>}}
+  \cup  \* callback stops with the history stored: the stopping evaluation is counted AND recorded
+  {D(n, Const(n, "wide"), "inside", FALSE, "quad", NoFault, "none", nl, "Bounds", opt, cb) :
+     n \in {2, 3}, nl \in {"none", "nlc_ub"}, opt \in {"default", "hist1", "hist2", "fev_3npt"},
+     cb \in {<<"stop", k>> : k \in {1, 3, 6, 12}}}
 
 (* ---- C06: call discipline ---------------------------------------------- *)
 Universe_C06 ==
@@ -243,6 +247,13 @@ Universe_Runs ==
      lin \in {"none", "two"}, nl \in {"plane_ub", "vector", "nlc_two", "circle_ge"},
      opt \in {"default", "npt_max", "npt_min", "fev_3npt"}}
 
+(* ---- C12: initial sets with nb_points > 2n+1 started where only SOME coordinates are close to their
+   upper bound (the cross points of the second block combine the first-block steps of two coordinates) *)
+Universe_C12b ==
+  {D(n, Const(n, bpk), x0, sc, obj, NoFault, "none", nl, "Bounds", opt, NoCb) :
+     n \in {2, 3}, bpk \in {"wide", "upper"}, x0 \in {"nearmixed", "nearmixed2"}, sc \in BOOLEAN,
+     obj \in {"quad", "rosen"}, nl \in {"none", "nlc_ub"}, opt \in {"npt_max", "npt_2np2", "npt_3np1"}}
+
 (* ---- C11: cheap runs of every flavour, grouped into schedules by the harness *)
 Universe_C11 ==
   {D(n, bp, "inside", sc, obj, NoFault, lin, nl, bf, opt, cb) :
@@ -263,6 +274,7 @@ Universe_C10 ==
 Universe(id) ==
   CASE id = "C10" -> Universe_C10
     [] id = "C11" -> Universe_C11
+    [] id = "C12b" -> Universe_C12b
     [] id = "C01" -> Universe_C01
     [] id = "C02" -> Universe_C02
     [] id = "C05" -> Universe_C05
